@@ -561,3 +561,41 @@ def replay_collect_ref(obligation=None, model=None, meta=None):
     return {'confirmed': False, 'tried': n}
 
 replay_collect_ref.real_system = True       # drives the real program on stock inputs: a crash inside repository code is a confirmed failure
+
+
+def model_idx2uid(pid):
+    """Model.idx2uid (vector form, flat, no None entries): out[j] = uid[idx[j]] whatever the order in which the devices were added."""
+    def one(ex, st, args, kw, node):
+        v = View(st, ex)
+        u = v.arr('self.uid')
+        i = to_z3(args[0])
+        ex.oblige(st, 'queried-idx-is-registered', u.dom[i], {})
+        return u.val[i]
+
+    def post(old, new, res):
+        u = old.arr('self.uid')
+        idx = old.st.content(old.local('idx'))
+        out = new.st.content(res)
+        k = fresh('k', I)
+        return z3.And(out.n == idx.n, z3.ForAll([k], z3.Implies(z3.And(k >= 0, k < idx.n), out.arr[k] == u.val[idx.arr[k]])))
+    c = Contract(FM, 'Model.idx2uid', pid=pid, params={'self': TObj(), 'idx': TSeq(elem=K)},
+                 schema={'self.uid': TMap(K, I), 'self.n': TInt(), 'self.class_name': TStr()},
+                 requires=[('all-idx-registered', lambda v: z3.ForAll([KQ], z3.Implies(
+                     z3.And(KQ >= 0, KQ < v.st.content(v.local('idx')).n),
+                     v.arr('self.uid').dom[v.st.content(v.local('idx')).arr[KQ]])))],
+                 calls={'self._one_idx2uid': one, 'isinstance:(float, int, str, np.integer, np.floating)': lambda ex, st, a, k, n: False,
+                        'isinstance:Iterable': lambda ex, st, a, k, n: True, 'isinstance:(list, np.ndarray)': lambda ex, st, a, k, n: False},
+                 ensures=[('out[j]=uid[idx[j]]-for-every-order-of-adding', post)], modifies=[])
+    c.tag = 'vector'
+    return c
+
+
+def replay_model_idx2uid(obligation=None, model=None, meta=None):
+    """native: registries of integers added in every order, queried in scalar, list, array and nested form (contracts/bounded_registry.py)"""
+    from contracts import bounded_registry as BR
+    n, bad = BR.run(0)
+    if bad:
+        return {'confirmed': True, 'inputs': bad, 'observed': str(bad.get('observed'))[:300], 'native_cmd': 'contracts/bounded_registry.py'}
+    return {'confirmed': False, 'tried': n}
+
+replay_model_idx2uid.real_system = True
